@@ -16,7 +16,7 @@ PROPS = {
               "Non-trivial: length mismatch, window strictly inside its root, partial last frame with >=2 channels, "
               "nil/empty/uneven striped member, S != B, or write-then-read round trip. Distinct = distinct 64-bit "
               "fingerprint of the canonical case."
-          " Fixtures are built in three construction orders (fill-then-slice, slice-then-fill, fill through an alias); caller slices are windows of larger caller-owned arrays whose tails are compared too; channel counts reach 140; values representable in both types include short-mantissa integers up to the integer type's range and +0/-0; sweeps add 65536+k-sample buffers. Window content may also be appended in two pieces (single samples, then an in-place Append of the rest) so that both pieces end in partial frames. Further windows of the same parent are cut while the window under test is alive; nine slice/buffer pairs use named element types; channel counts around 256 are swept."),
+          " Fixtures are built in three construction orders (fill-then-slice, slice-then-fill, fill through an alias); caller slices are windows of larger caller-owned arrays whose tails are compared too; channel counts reach 140; values representable in both types include short-mantissa integers up to the integer type's range and +0/-0; sweeps add 65536+k-sample buffers. Window content may also be appended in two pieces (single samples, then an in-place Append of the rest) so that both pieces end in partial frames. Further windows of the same parent are cut while the window under test is alive; nine slice/buffer pairs use named element types; channel counts around 256 are swept. Three calls move more than 2^20 samples."),
         quick=dict(rapid=dict(checks=100000, shards=8)),
         thorough=dict(rapid=dict(checks=400000, shards=16), fuzz=dict(targets=["FuzzC01"], seconds=45)),
         assumptions=COMMON_ASSUME,
@@ -108,7 +108,7 @@ PROPS["C13"] = dict(
     thorough=dict(rapid=dict(checks=100000, shards=16), fuzz=dict(targets=["FuzzC13"], seconds=20)),
     assumptions=COMMON_ASSUME,
     technique="property-based testing (rapid) + bounded-exhaustive shape sweep with zero-fill and independence stamps",
-    level_text=("Exhaustive over 26 types x C<=8 (16) x all L<=K<=6 (9); larger shapes (C to 64, K to 4096) sampled by rapid. In a third of the pairs nothing is sliced before the first store: direct reads up to the length, fill to capacity by AppendSample, an allocation made afterwards read directly. After the pair checks the first allocation grows by an Append: the second and a fresh allocation of the first shape must not notice; Len()/Cap() are compared with the storage itself."),
+    level_text=("Exhaustive over 26 types x C<=8 (16) x all L<=K<=6 (9); larger shapes (C to 64, K to 4096) sampled by rapid. In a third of the pairs nothing is sliced before the first store: direct reads up to the length, fill to capacity by AppendSample, an allocation made afterwards read directly. After the pair checks the first allocation grows by an Append: the second and a fresh allocation of the first shape must not notice; Len()/Cap() are compared with the storage itself. The view cut from the first allocation before it grew and the fresh allocation are written through in turn."),
     level_note="Trusts Slice and Sample/SetSample to observe the capacity region; bit width of int/uint/uintptr is this platform's (64).",
 )
 
@@ -124,7 +124,7 @@ PROPS["C14"] = dict(
     thorough=dict(rapid=dict(checks=150000, shards=16), fuzz=dict(targets=["FuzzC14"], seconds=20)),
     assumptions=COMMON_ASSUME,
     technique="property-based testing (rapid) + exhaustive sweep over channels/indices against harness-computed interleaved positions with whole-storage diff",
-    level_text=("Exhaustive over 13 types x C 1..8 x roots <=6 (9) frames x all windows x every channel x every index; larger parents sampled. In a third of the cases views of the root or of an intermediate window were taken before the parent window was cut. Rare long parents (66000..132000 samples) are probed around interleaved positions 2^16 and 2^17. Named element types; floating probes are fractions, infinities and a value beyond 2^31."),
+    level_text=("Exhaustive over 13 types x C 1..8 x roots <=6 (9) frames x all windows x every channel x every index; larger parents sampled. In a third of the cases views of the root or of an intermediate window were taken before the parent window was cut. Rare long parents (66000..132000 samples) are probed around interleaved positions 2^16 and 2^17. Named element types; floating probes are fractions, infinities and a value beyond 2^31. Probe values include subnormals of the element type."),
     level_note="BufferIndex is called with the view's own channel as first argument (as the repository's test does). Trusts Alloc/Slice and root Sample/SetSample.",
 )
 PROPS["C15"] = dict(
@@ -160,7 +160,7 @@ PROPS["C20"] = dict(
     assumptions=COMMON_ASSUME,
     technique="bounded-exhaustive cross product of entry points x degenerate shapes + property-based testing (rapid); oracle = no panic, zero counts, whole-state snapshots",
     level_text=("Exhaustive cross product of every exported entry point x every degenerate allocator on a small grid x all types/pairs/instantiations; "
-                "larger degenerate shapes and partner sizes sampled by rapid. Pooled zero-length buffers are used (AppendSample) before they go back. Three named element types and nine named/underlying Read/Write pairs. After Slice(0,0) of a zero-capacity buffer one of the two grows by an Append; the other must stay inert."),
+                "larger degenerate shapes and partner sizes sampled by rapid. Pooled zero-length buffers are used (AppendSample) before they go back. Three named element types and nine named/underlying Read/Write pairs. After Slice(0,0) of a zero-capacity buffer one of the two grows by an Append; the other must stay inert. Two to four buffers of a degenerate pool are outstanding together and all put back."),
     level_note="For ChannelLength(n>0, 0), a combination no buffer can produce, only 'no panic and a result in [0,n]' is demanded.",
 )
 NUM_ASSUME = COMMON_ASSUME + [
@@ -182,7 +182,7 @@ PROPS["C06"] = dict(
     assumptions=NUM_ASSUME,
     technique="exhaustive enumeration of all 8/16/32-bit source codes in amplitude order + property-based testing (rapid) on 64-bit sources; order and reference-level oracle in exact integer arithmetic",
     level_text=("Complete enumeration of every 8- and 16-bit source code (quick) and every 32-bit source code (thorough) for all destinations decides order "
-                "preservation exactly on those sub-domains; 64-bit sources are sampled densely at boundaries and at random (order is checked on sorted samples). Long and wide at once: 12 channels x 40000 and 64 channels x 70001 samples per pair in the sweep; rapid couples very long buffers with 1..64 channels. Operands may also have grown out of an empty window (Slice(fr,fr) then Append). Named element types (34 further instantiations); a source that was the output of a conversion and is converted through a window cut then (fix 5). Operands of unequal length (source or destination two frames longer). One destination buffer per destination type may be shared by all instantiations (fix 8)."),
+                "preservation exactly on those sub-domains; 64-bit sources are sampled densely at boundaries and at random (order is checked on sorted samples). Long and wide at once: 12 channels x 40000 and 64 channels x 70001 samples per pair in the sweep; rapid couples very long buffers with 1..64 channels. Operands may also have grown out of an empty window (Slice(fr,fr) then Append). Named element types (34 further instantiations); a source that was the output of a conversion and is converted through a window cut then (fix 5). Operands of unequal length (source or destination two frames longer). One destination buffer per destination type may be shared by all instantiations (fix 8). A source that was converted into a shorter destination before (fix 9)."),
     level_note="Order preservation between two arbitrary 64-bit inputs is only sampled; adjacent-code monotonicity on the swept domains implies it there.",
 )
 
@@ -197,7 +197,7 @@ PROPS["C07"] = dict(
     assumptions=NUM_ASSUME,
     technique="exhaustive enumeration of all 8/16/32-bit source codes + property-based testing (rapid) on 64-bit sources; floor/ceil accuracy oracle and widen-then-narrow round trip in exact integer arithmetic",
     level_text=("Complete enumeration of every 8/16-bit (quick) and 32-bit (thorough) source code for all 11 destinations, including every widen-and-back "
-                "composition; 64-bit sources sampled at boundaries and at random. Long and wide at once: 12 channels x 40000 and 64 channels x 70001 samples per pair in the sweep; rapid couples very long buffers with 1..64 channels. Operands may also have grown out of an empty window (Slice(fr,fr) then Append). Named element types (34 further instantiations); a source that was the output of a conversion and is converted through a window cut then (fix 5). Operands of unequal length (source or destination two frames longer). One destination buffer per destination type may be shared by all instantiations (fix 8)."),
+                "composition; 64-bit sources sampled at boundaries and at random. Long and wide at once: 12 channels x 40000 and 64 channels x 70001 samples per pair in the sweep; rapid couples very long buffers with 1..64 channels. Operands may also have grown out of an empty window (Slice(fr,fr) then Append). Named element types (34 further instantiations); a source that was the output of a conversion and is converted through a window cut then (fix 5). Operands of unequal length (source or destination two frames longer). One destination buffer per destination type may be shared by all instantiations (fix 8). A source that was converted into a shorter destination before (fix 9)."),
     level_note="Round trips return to every element type with the source's signedness and depth (int/int64, uint/uint64/uintptr).",
 )
 
@@ -216,7 +216,7 @@ PROPS["C08"] = dict(
     assumptions=NUM_ASSUME + ["NaN inputs are excluded (result unspecified by the property)", "the verdict is for linux/amd64, where the library relies on the platform's float-to-integer conversion for in-range negative inputs to unsigned types"],
     technique="exhaustive enumeration of all float32 bit patterns (thorough) + boundary-dense sweep + property-based testing (rapid) and native fuzzing; clip/linearity/monotonicity oracle decided with exact 128-bit arithmetic",
     level_text=("Every non-NaN float32 input for all 11 float32-source instantiations is enumerated in numeric order (thorough), which decides clipping, accuracy and "
-                "monotonicity exactly there; float64 inputs are sampled densely at the boundaries the property names and at random. Long and wide at once: 12 channels x 40000 and 64 channels x 70001 samples per instantiation in the sweep; rapid couples very long buffers with 1..64 channels. Operands may also have grown out of an empty window (Slice(fr,fr) then Append). Named element types (34 further instantiations); a source that was the output of a conversion and is converted through a window cut then (fix 5). Operands of unequal length (source or destination two frames longer). One destination buffer per destination type may be shared by all instantiations (fix 8)."),
+                "monotonicity exactly there; float64 inputs are sampled densely at the boundaries the property names and at random. Long and wide at once: 12 channels x 40000 and 64 channels x 70001 samples per instantiation in the sweep; rapid couples very long buffers with 1..64 channels. Operands may also have grown out of an empty window (Slice(fr,fr) then Append). Named element types (34 further instantiations); a source that was the output of a conversion and is converted through a window cut then (fix 5). Operands of unequal length (source or destination two frames longer). One destination buffer per destination type may be shared by all instantiations (fix 8). A source that was converted into a shorter destination before (fix 9)."),
     level_note="The one-step tolerance is the property's own; the oracle has no floating tolerance of its own (exact integer comparison).",
 )
 
@@ -234,7 +234,7 @@ PROPS["C09"] = dict(
     assumptions=NUM_ASSUME,
     technique="exhaustive enumeration of all 8/16/32-bit source codes + property-based testing (rapid) on 64-bit sources; range/level/order/accuracy oracle and round trip through the inverse conversion",
     level_text=("Complete enumeration of every 8/16-bit (quick) and 32-bit (thorough) code into both float types, with injectivity and round trips; 64-bit sources "
-                "sampled. One known finding (F9, UnsignedAsFloat) is reported as KNOWN-FINDING and excluded by a structural predicate. Long and wide at once: 12 channels x 40000 and 64 channels x 70001 samples per pair in the sweep; rapid couples very long buffers with 1..64 channels. Operands may also have grown out of an empty window (Slice(fr,fr) then Append). Named element types (34 further instantiations); a source that was the output of a conversion and is converted through a window cut then (fix 5). Operands of unequal length (source or destination two frames longer). One destination buffer per destination type may be shared by all instantiations (fix 8); the same values are converted again in three other arrangements and compared bit for bit."),
+                "sampled. One known finding (F9, UnsignedAsFloat) is reported as KNOWN-FINDING and excluded by a structural predicate. Long and wide at once: 12 channels x 40000 and 64 channels x 70001 samples per pair in the sweep; rapid couples very long buffers with 1..64 channels. Operands may also have grown out of an empty window (Slice(fr,fr) then Append). Named element types (34 further instantiations); a source that was the output of a conversion and is converted through a window cut then (fix 5). Operands of unequal length (source or destination two frames longer). One destination buffer per destination type may be shared by all instantiations (fix 8); the same values are converted again in three other arrangements and compared bit for bit. A source that was converted into a shorter destination before (fix 9)."),
     level_note="'plus float rounding' is taken as 4 ulp of 1 in the destination float type.",
 )
 PROPS["C16"] = dict(
@@ -317,7 +317,7 @@ PROPS["C18"] = dict(
     assumptions=COMMON_ASSUME + ["escape analysis and inlining are compiler decisions: the verdict is for go1.23.5 and the generated instantiations/shapes",
                                  "non-race build, one process per shard (AllocsPerRun pins GOMAXPROCS to 1 and reads process-wide malloc counters)"],
     technique="property-based testing (rapid) + exhaustive operation x type sweep with testing.AllocsPerRun as the oracle",
-    level_text=("Every operation x every element type (all 169 conversions) is measured at several shapes in both tiers; rapid samples further shapes and type pairs. Append within capacity also with source and destination being windows of one parent, and of a buffer onto itself. Interleaved get/put cycles of two pools of the same shape for every pair of element types. The 8 x 4096 shape runs for every conversion in the quick tier too."),
+    level_text=("Every operation x every element type (all 169 conversions) is measured at several shapes in both tiers; rapid samples further shapes and type pairs. Append within capacity also with source and destination being windows of one parent, and of a buffer onto itself. Interleaved get/put cycles of two pools of the same shape for every pair of element types. The 8 x 4096 shape runs for every conversion in the quick tier too. appendSampleOnFullGrownBuffer measures the first call on 32 freshly prepared buffers with runtime.MemStats (minimum of three attempts, at least 16 allocations to count)."),
     level_note="AllocsPerRun truncates the per-run average, so a one-off allocation by the runtime (e.g. a pool refill after GC) does not count while any per-call allocation does.",
 )
 PROPS["C11"] = dict(
@@ -358,7 +358,7 @@ PROPS["C19"] = dict(
                                  "the race detector reports unordered conflicting accesses that actually executed"],
     technique="randomised concurrent stress under the Go race detector with rapid-generated reader/writer scripts; differential oracle against the sequential execution of the same scripts",
     level_text=("Schedule sampling, not enumeration. Hidden shared mutable state in a read path or a write outside a slice's window is an unordered conflicting access, which the race "
-                "detector reports whenever both accesses execute, whatever the interleaving; results are also compared with a sequential run. A fifth of the cases use 5..17 (rarely 60..70) channels; the sweep includes 9 and 16. Writer windows may reach into the spare capacity, with a boundary right behind a partial last frame; reader results are rendered without package fmt (its pooled printers would order the goroutines); writers offer inputs longer than their window, also to an empty window; a third of the cases take the shared buffer from a pool allocator, a quarter from a growing Append (no Cap() or Slice() call on it before the goroutines start)."),
+                "detector reports whenever both accesses execute, whatever the interleaving; results are also compared with a sequential run. A fifth of the cases use 5..17 (rarely 60..70) channels; the sweep includes 9 and 16. Writer windows may reach into the spare capacity, with a boundary right behind a partial last frame; reader results are rendered without package fmt (its pooled printers would order the goroutines); writers offer inputs longer than their window, also to an empty window; a third of the cases take the shared buffer from a pool allocator, a quarter from a growing Append (no Cap() or Slice() call on it before the goroutines start); conversions also run from and into the same-width twin type."),
     level_note="Race reports are turned into violations with the process log as the replay artefact; so is an abort of the race build's pointer checker (checkptr) whose innermost non-runtime frame is in pipelined.dev/signal.",
 )
 
